@@ -669,3 +669,13 @@ from . import C15w  # noqa: E402,F401  (the model functions around the kernels)
 from . import C14 as _C14  # noqa: E402
 unit("C15", "charge.array_to_df")(_C14.array_to_df)
 unit("C15", "charge.mixed_routing")(_C14.mixed_routing)
+
+
+def _charge_reset(u: Unit):
+    """C14's unit `empty` (imported late): the charge container is back at zero at the start of every readout step -- array AND cluster
+    table, whatever was read from it before -- so that what simple_collection adds to the pixels is exactly the charge generated in THIS step."""
+    from . import C14 as _C14
+    return _C14.empty(u)
+
+
+unit("C15", "charge.reset")(_charge_reset)
